@@ -86,8 +86,20 @@ def run(project: Project, rep, tier: str):
         else:
             rep.unmodelled("PE-FORM", fi, fi.node, f"cannot evaluate derived form ({w})")
         d = facets.degree(e, facets.DegDecl())
-        if facets.is_top(d):
-            (rep.unmodelled if d.reason.startswith("unmodelled") else rep.refuted)(
+        if facets.is_top(d) and not d.reason.startswith("unmodelled"):
+            # the typing found a mixture of degrees; whether it matters is settled by a counterexample (moderate, tiny and
+            # huge scale factors on random barcodes) — a guard like `if total == 0: total = 1` mixes degrees and matters not
+            okS, wS = symeval.scaling_check(e, 0.0, trials=16, input_fn=symeval.bars_input, nrows=4)
+            if okS is False:
+                rep.refuted("PE-INV", fi, fi.node, f"normalize={norm}: not invariant under uniform rescaling ({d.reason}); "
+                                                   f"witness {wS}"[:500], construct=f"{PE}: scale invariance (normalize={norm})",
+                            failing_input=str(wS)[:300])
+            else:
+                rep.unmodelled("PE-INV", fi, fi.node, f"normalize={norm}: scale invariance not proved ({d.reason}); no "
+                                                      f"counterexample among rescalings by 3.7, 1e-9 and 1e6" +
+                               (f" ({wS})" if okS is None else ""))
+        elif facets.is_top(d):
+            rep.unmodelled(
                 "PE-INV", fi, fi.node, f"normalize={norm}: not invariant under uniform rescaling: {d.reason}")
         elif d == facets.POLY or abs(d[0]) < 1e-9:
             rep.discharged("PE-INV", fi, fi.node, f"normalize={norm}: homogeneity degree 0 ⇒ invariant under uniform "
